@@ -229,6 +229,10 @@ class ReturnCode(Enum):
     # (A0h-DFh - None proposed)
 
 
+# 10 bit codes of services - a payload in the low six bits must not produce one of them
+_ASSIGNED_SERVICE_CODES: Final = frozenset(service.value for service in APCIService)
+
+
 @dataclass(slots=True)
 class APCI(ABC):
     """
@@ -738,6 +742,9 @@ class ADCResponse(APCI):
         """Serialize to KNX/IP raw data."""
         if not 0 <= self.channel <= DPTBinary.APCI_BITMASK:
             raise ConversionError("Channel out of range.")
+        if self.channel and (self.CODE.value | self.channel) in _ASSIGNED_SERVICE_CODES:
+            # the code is assigned to another service - it would be decoded as that one
+            raise ConversionError("Channel collides with an application service code.")
         payload = struct.pack("!BBH", self.channel, self.count, self.value)
 
         return encode_cmd_and_payload(
